@@ -28,7 +28,7 @@ vfps::DynamicRFKickMap::DynamicRFKickMap(std::shared_ptr<PhaseSpace> in
                                         , const bool interpol_clamp
                                         , oclhptr_t oclh
                                         )
-  : RFKickMap( in,out,xsize,ysize,angle,f_RF,it,interpol_clamp, oclh)
+  : RFKickMap( in,out,angle,f_RF,it,interpol_clamp, oclh)
   , _phasenoise(phasespread/std::sqrt(revolutionpart))
   , _amplnoise(amplspread/std::sqrt(revolutionpart))
   , _modampl(modampl)
